@@ -17,7 +17,7 @@ import replay as replaymod
 import kanirun
 
 VERIF = asm.VERIF
-EVID = os.path.join(VERIF, 'evidence')
+EVID = os.environ.get('VERIF_EVIDENCE_DIR') or os.path.join(VERIF, 'evidence')
 REPLAYS = os.path.join(VERIF, 'build', 'replays')
 
 
@@ -103,8 +103,10 @@ def main(argv):
     vac = {'canary_functions': 0, 'canary_failed_as_required': 0, 'vacuous': []}
     versions = set()
     rewrites = []
+    recoveries = []
     for unit, d in sorted(results.items()):
         r: runner.UnitResult = d['main']
+        recoveries += ['[%s] %s' % (unit, x) for x in r.recoveries]
         cmds.append('(cd %s && %s)' % (os.path.relpath(os.path.dirname(r.path), VERIF), r.cmd))
         if r.verus_version:
             versions.add(r.verus_version)
@@ -232,7 +234,8 @@ def main(argv):
         seen_ob.add(fl.obligation)
         path = os.path.join(REPLAYS, '%s-%s.json' % (pid, re.sub(r'[^A-Za-z0-9_.-]+', '_', fl.obligation)[:120]))
         rec = {'property': pid, 'obligation': fl.obligation, 'function': fl.fn, 'repo_location': fl.repo_loc,
-               'clause': fl.clause, 'message': fl.message, 'verifier_output': fl.rendered, 'input': None}
+               'clause': fl.clause, 'message': fl.message, 'verifier_output': fl.rendered, 'input': None,
+               'front_end_workarounds': [x for x in recoveries if x.startswith('[%s]' % fl.unit)]}
         found = replaymod.find_failing_input(pid, fl, rec)
         with open(path, 'w') as f:
             json.dump(rec, f, indent=1)
@@ -270,6 +273,7 @@ def main(argv):
             'vacuity': vac,
             'known_findings_printed': [k['id'] for k in known_printed],
             'undecided': undecided,
+            'front_end_workarounds': recoveries,
             'failures_tagged_for_other_properties': sorted({f.obligation for f in other_failures}),
             'solver_time_ms': round(sum(r['main'].smt_ms for r in results.values()), 1),
         },
